@@ -36,3 +36,8 @@ Proof. intros H e1 e2 p. unfold iw_strtoll_current. rewrite H. reflexivity. Qed.
    refused after any earlier call that left ERANGE behind *)
 Theorem iw_strtoll_errno_refuted : exists p, iw_strtoll false 0 p = Ok (WVal 123) /\ iw_strtoll false ERANGE p = Ok WErr.
 Proof. exists [49; 50; 51; 0]. split; vm_compute; reflexivity. Qed.
+
+(* the tree as it is (T1: Facts.fact_strto_clears_errno, observed by running iw_strtoll after errno = ERANGE) *)
+Lemma strto_clears_errno_now : fact_strto_clears_errno = true. Proof. reflexivity. Qed.
+Theorem iw_strtoll_current_errno_indep : forall e1 e2 p, iw_strtoll_current e1 p = iw_strtoll_current e2 p.
+Proof. exact (iw_strtoll_errno_current strto_clears_errno_now). Qed.
